@@ -265,3 +265,125 @@ def _(c):
     c.types(text='str').returns('bool')
     c.ensures('result == glob(self.pattern, text)', 'star_matches_any_run')
     c.native_gen(lambda rnd: gen.wildcard_case(rnd))
+
+
+# ======================================================================================================================
+# C18, matcher half, the part of the parser within the verifier's reach: the bracket / separator scanners raise nothing but RuntimeError
+@contract('core.matcher._is_letter')
+def _(c):
+    c.prop('C18')
+    c.types(a='str').returns('bool')
+    c.requires('len(a) == 1')
+    c.ensures('result == ((ord(a) >= 97 and ord(a) <= 122) or (ord(a) >= 65 and ord(a) <= 90))', 'ascii_letters')
+    c.modifies()
+    c.native_gen(lambda rnd: (rnd.choice(['a', 'z', 'A', 'Z', '@', '[', '`', '{', '0', 'é', 'm']),))
+
+
+@contract('core.matcher._find_closing_brace')
+def _(c):
+    """the partner of the bracket / quote at `start`, or RuntimeError; never an index error"""
+    c.prop('C18')
+    c.types(text='str', start='int').returns('int')
+    c.requires('0 <= start and start < len(text)')
+    c.requires('text[start] == "(" or text[start] == "[" or text[start] == \'"\'', 'an_opening_bracket')
+    c.raises('RuntimeError', when=None, exact=False)
+    c.ensures('start < result and result < len(text)', 'inside_the_text')
+    c.ensures('text[result] == (")" if text[start] == "(" else ("]" if text[start] == "[" else \'"\'))', 'it_is_the_closing_one')
+    c.modifies()
+    lp = c.loop(0)
+    lp.invariant('level >= 1', 'still_open')
+    c.native_gen(lambda rnd: _gen_fcb(rnd))
+
+
+def _gen_fcb(rnd):
+    s = ''.join(rnd.choice('()[]"ab, ') for _ in range(rnd.randint(1, 10)))
+    idx = [k for k, ch in enumerate(s) if ch in '(["']
+    if not idx:
+        s = '(' + s
+        idx = [0]
+    return (s, rnd.choice(idx))
+
+
+@contract('core.matcher._split_on')
+def _(c):
+    """cutting at a delimiter outside brackets never fails except for an unmatched bracket (RuntimeError); at least one section unless the empty list is allowed"""
+    c.prop('C18')
+    c.types(text='str', delimiter='str', allow_empty_list='bool', result='List(str)').returns('Seq(str)')
+    c.requires('len(delimiter) == 1')
+    c.raises('RuntimeError', when=None, exact=False)
+    c.ensures('len(result) >= 1 or allow_empty_list', 'at_least_one_section')
+    c.modifies('new')
+    lp = c.loop(0)
+    lp.invariant('0 <= i and 0 <= section_start and section_start <= i + 1', 'bounds')
+    lp.invariant('i <= len(text) or len(result) >= 1', 'the_end_of_the_text_closes_a_section')
+    lp.decreases('len(text) + 1 - i')
+    lp.modifies('list(result)')
+    c.native_gen(lambda rnd: (''.join(rnd.choice('()[]"ab, !.') for _ in range(rnd.randint(0, 10))), rnd.choice([',', '!', '.', '(', ':']), rnd.random() < 0.3))
+
+
+@contract('core.matcher._split_pair')
+def _(c):
+    c.prop('C18')
+    c.types(text='str', delimiter='str').returns('Opt(Tuple(str, str))')
+    c.requires('len(delimiter) == 1')
+    c.raises('RuntimeError', when=None, exact=False)
+    c.modifies('new')
+    c.native_gen(lambda rnd: (''.join(rnd.choice('()[]"ab, !.') for _ in range(rnd.randint(0, 10))), rnd.choice([',', '!', '.', '(', ':'])))
+
+
+@contract('core.matcher._split_peren_at_end')
+def _(c):
+    c.prop('C18')
+    c.types(text='str').returns('Opt(Tuple(str, str))')
+    c.raises('RuntimeError', when=None, exact=False)
+    c.modifies('new')
+    c.native_gen(lambda rnd: (''.join(rnd.choice('()[]"ab, !.') for _ in range(rnd.randint(0, 10))),))
+
+
+@contract('core.matcher.EqMatcher.__init__')
+def _(c):
+    c.trusted('stores its two arguments (the expected value is of any type, outside the typed heap model)')
+    c.types(expected='Any', text='Opt(str)')
+    c.modifies('new')
+    c.epoch_preserving()
+
+
+@contract('core.matcher.PairMatcher.__init__')
+def _(c):
+    c.inline()
+
+
+@contract('core.matcher._parse_int_matcher')
+def _(c):
+    c.prop('C18')
+    c.types(text='str').returns(M_)
+    c.raises('RuntimeError', when=None, exact=False)
+    c.ensures('fresh(result)')
+    c.modifies('new')
+    c.native_gen(lambda rnd: (rnd.choice(['*', '', '5', '-3', 'a', '5a', '1.5', ' 7', '٣', '1_000', '+2', '--1']),))
+
+
+@contract('core.matcher._parse_generation_matcher')
+def _(c):
+    c.prop('C18')
+    c.types(text='str').returns(M_)
+    c.requires('len(text) > 0 and all((ord(text[k]) >= 97 and ord(text[k]) <= 122) or (ord(text[k]) >= 65 and ord(text[k]) <= 90) for k in range(0, len(text)))', 'ascii_letters_only')
+    c.ensures('fresh(result)')
+    c.modifies('new')
+    c.native_gen(lambda rnd: (''.join(rnd.choice('abzABZq') for _ in range(rnd.randint(1, 4))),))
+
+
+@contract('core.matcher._parse_obj_id_matcher')
+def _(c):
+    """an object id with optional generation letters: the backwards scan over the letters stays inside the text (no IndexError for `a`, `ZZ`, ``),
+    the generation text handed on consists of letters only, nothing but RuntimeError is raised"""
+    c.prop('C18')
+    c.types(text='str').returns(M_)
+    c.raises('RuntimeError', when=None, exact=False)
+    c.ensures('fresh(result)')
+    c.modifies('new')
+    lp = c.loop(0)
+    lp.invariant('0 <= i and i <= len(text)', 'inside_the_text')
+    lp.invariant('all((ord(text[k]) >= 97 and ord(text[k]) <= 122) or (ord(text[k]) >= 65 and ord(text[k]) <= 90) for k in range(i, len(text)))', 'letters_behind')
+    lp.decreases('i')
+    c.native_gen(lambda rnd: (rnd.choice(['nil', '', 'a', 'ZZ', '5', '5a', '12ab', 'a1', '5é', '-1b', '*', '*a', '1.5', 'x5y']),))
